@@ -99,6 +99,9 @@ func (e *Engine) liveSyms(st *State, extra []AVal) map[Sym]bool {
 	for r, h := range st.hits {
 		live[r] = true
 		symsOfVal(h.h, live)
+		for _, t := range h.nlen.T {
+			live[t.S] = true
+		}
 	}
 	for _, v := range extra {
 		if v != nil {
